@@ -155,7 +155,8 @@ func (b *backend) delete(ctx context.Context, oldRevision uint64, key []byte) (n
 
 	newRevision, err = b.deal(oldRevision)
 	if err != nil {
-		return 0, KeyVal{}, err
+		// the allocated revision must still be reported, otherwise it is never resolved
+		return newRevision, KeyVal{}, err
 	}
 
 	old = KeyVal{Key: key, Revision: modRevision, Val: oldVal}
@@ -251,7 +252,8 @@ func (b *backend) update(ctx context.Context, oldRevision uint64, key []byte, va
 	var newRevision uint64
 	newRevision, err = b.deal(oldRevision)
 	if err != nil {
-		return 0, err
+		// the allocated revision must still be reported, otherwise it is never resolved
+		return newRevision, err
 	}
 
 	objectKey := b.coder.EncodeObjectKey(key, newRevision)
